@@ -572,6 +572,18 @@ func (c *Ctx) chordPipelineByFolding() (string, int, bool) {
 // end is compared, op by op, with a model written from the properties (C01 pitches, C02 times, C05 the key applies from
 // the chord that carries it, C06 the same music for every track count, C07 settings at their instance's start with their
 // values, C08 meta events on track 0 and every track closed at the end).
+func (c *Ctx) playPipelineVerdict(N int) (string, int, bool) {
+	if c.playPipeFold == nil {
+		c.playPipeFold = map[int]*foldVerdict{}
+	}
+	if v, ok := c.playPipeFold[N]; ok {
+		return v.problem, v.n, v.ok
+	}
+	p, n, ok := c.playPipelineByFolding(N)
+	c.playPipeFold[N] = &foldVerdict{p, n, ok}
+	return p, n, ok
+}
+
 func (c *Ctx) playPipelineByFolding(N int) (string, int, bool) {
 	debug := os.Getenv("CRDCHECK_DEBUG") != ""
 	fail := func(what string, err error, v fval) (string, int, bool) {
